@@ -692,3 +692,15 @@ def run(idx, rep, tier):
     r3(k)
     r4(k)
     r5(k)
+    # R6: prefix truncation (dropping the first encrypted packets by
+    # injecting cleartext ones before keys are in effect) is only detected
+    # if strict KEX is enforced: = C06.R2
+    from .c06 import r2 as c06r2
+    rep.rule('C01.R6', 'strict KEX enforcement (= C06.R2): KEXINIT must be '
+             'the first packet, sequence numbers restart at NEWKEYS, so '
+             'packets removed from the head of the encrypted stream are '
+             'noticed')
+    before = len(rep.obligations)
+    c06r2(k)
+    for o in rep.obligations[before:]:
+        o.rule = 'C01.R6'
